@@ -75,6 +75,33 @@ Proof.
   destruct (t0 <? t); repeat split; reflexivity.
 Qed.
 
+Lemma on_rtt_update_proj : forall s st now rtt last,
+  mds (on_rtt_update s st now rtt last) = mds s /\ cwnd (on_rtt_update s st now rtt last) = cwnd s /\
+  bif (on_rtt_update s st now rtt last) = bif s /\ uu (on_rtt_update s st now rtt last) = uu s /\
+  tls (hs (on_rtt_update s st now rtt last)) = tls (hs s) /\
+  (forall t r, kind s = Recovery t r -> kind (on_rtt_update s st now rtt last) = Recovery t r).
+Proof.
+  intros s st now rtt last. unfold on_rtt_update.
+  set (s1 := if match thr s with Some t => t <=? cwnd s | None => false end then s else _).
+  assert (P1 : mds s1 = mds s /\ cwnd s1 = cwnd s /\ bif s1 = bif s /\ uu s1 = uu s /\ tls (hs s1) = tls (hs s) /\ kind s1 = kind s).
+  { unfold s1. destruct (match thr s with Some t => t <=? cwnd s | None => false end); [repeat split; reflexivity|].
+    set (h3 := {| tls := _; sc := _ + 1; lmin := _; cmin := _; rend := _ |}).
+    assert (T : tls h3 = tls (hs s)).
+    { unfold h3. cbn [tls].
+      destruct (match rend (hs s) with None => true | Some e => e <=? st end); cbn [sc tls];
+        match goal with |- tls (if ?c then _ else _) = _ => destruct c end; reflexivity. }
+    destruct (lmin h3) as [l|]; [|repeat split; try reflexivity; exact T].
+    destruct (cmin h3) as [c|]; [|repeat split; try reflexivity; exact T].
+    destruct (sc h3 =? hss_n_sampling); [|repeat split; try reflexivity; exact T].
+    match goal with |- context[if ?c then _ else _] => destruct c end; repeat split; try reflexivity; exact T. }
+  destruct P1 as (A & B & C & D & E & K).
+  destruct (kind s1) eqn:K1.
+  - destruct (thr s1) as [t|]; [destruct (t <=? cwnd s1)|]; cbn [mds cwnd bif uu hs set_kind];
+      (repeat split; try assumption; intros t0 r0 K0; congruence).
+  - repeat split; try assumption. intros t0 r0 K0. congruence.
+  - repeat split; try assumption. intros t0 r0 K0. congruence.
+Qed.
+
 Definition floor_inv (s : cstate) : Prop := min_window (mds s) <= cwnd s /\ mds s < 65536.
 
 Lemma max_cwnd_ge : forall s, min_window (mds s) <= max_cwnd s.
@@ -122,10 +149,10 @@ Qed.
 
 Lemma step_floor : forall s o a s', floor_inv s -> oracle_ok_step s o a -> step s o a = Some s' -> floor_inv s'.
 Proof.
-  intros s o a s' I O H. destruct I as [F M]. unfold step in H. destruct o as [bytes app|bytes st now|bytes pers now|now|m|bytes|].
+  intros s o a s' I O H. destruct I as [F M]. unfold step in H. destruct o as [bytes app snow|bytes st now|bytes pers now|now|m|bytes|ust unow urtt|].
   - destruct (bytes =? 0); [injection H as <-; split; assumption|].
     destruct (u32_max <? bif s + bytes); [discriminate|]. injection H as <-.
-    unfold floor_inv. destruct (clear_req_proj (set_uu (set_bif s (bif s + bytes))
+    unfold floor_inv. cbn [mds cwnd set_hs]. destruct (clear_req_proj (set_uu (set_bif s (bif s + bytes))
       match app with 0 => under_utilized (set_bif s (bif s + bytes)) | 1 => false | _ => under_utilized (set_bif s (bif s + bytes)) end)) as (E1 & E2 & _).
     rewrite E1, E2. split; assumption.
   - destruct (bif s <? bytes); [discriminate|]. injection H as <-.
@@ -142,6 +169,8 @@ Proof.
   - destruct (bif s <? bytes); [discriminate|]. injection H as <-.
     unfold floor_inv. destruct (clear_req_proj (set_bif s (bif s - bytes))) as (E1 & E2 & _).
     rewrite E1, E2. split; assumption.
+  - destruct (tls (hs s)) as [last|]; [|discriminate]. injection H as <-.
+    destruct (on_rtt_update_proj s ust unow urtt last) as (E1 & E2 & _). unfold floor_inv. rewrite E1, E2. split; assumption.
   - injection H as <-. split; assumption.
 Qed.
 
@@ -242,9 +271,9 @@ Theorem cubic_recovery_ends_only_by_ack : forall s o a s' t r, kind s = Recovery
   (exists b st now, o = Ack b st now /\ t < st /\ uu s = false) \/
   (exists b now, o = Lost b true now).
 Proof.
-  intros s o a s' t r K H. unfold step in H. destruct o as [bytes app|bytes st now|bytes pers now|now|m|bytes|].
+  intros s o a s' t r K H. unfold step in H. destruct o as [bytes app snow|bytes st now|bytes pers now|now|m|bytes|ust unow urtt|].
   - left. destruct (bytes =? 0); [injection H as <-; eauto|].
-    destruct (u32_max <? bif s + bytes); [discriminate|]. injection H as <-.
+    destruct (u32_max <? bif s + bytes); [discriminate|]. injection H as <-. cbn [kind set_hs].
     unfold clear_req. cbn [kind set_uu set_bif]. rewrite K. destruct r; cbn [kind set_kind set_uu set_bif]; eauto.
   - destruct (bif s <? bytes); [discriminate|]. injection H as <-.
     unfold on_ack. set (s1 := ack1 s bytes).
@@ -262,6 +291,8 @@ Proof.
   - injection H as <-. left. cbn [kind]. eauto.
   - destruct (bif s <? bytes); [discriminate|]. injection H as <-. left.
     unfold clear_req. cbn [kind set_bif]. rewrite K. destruct r; cbn [kind set_kind set_bif]; eauto.
+  - destruct (tls (hs s)) as [last|]; [|discriminate]. injection H as <-. left.
+    destruct (on_rtt_update_proj s ust unow urtt last) as (_ & _ & _ & _ & _ & P). rewrite (P t r K). eauto.
   - injection H as <-. eauto.
 Qed.
 
@@ -286,7 +317,7 @@ Proof.
 Qed.
 
 (* ---- bytes in flight ---- *)
-Definition sent_of (o : op) : N := match o with Sent b _ => b | _ => 0 end.
+Definition sent_of (o : op) : N := match o with Sent b _ _ => b | _ => 0 end.
 Definition removed_of (o : op) : N := match o with Ack b _ _ | Lost b _ _ | Discard b => b | _ => 0 end.
 Fixpoint total (f : op -> N) (l : list (op * N)) : N :=
   match l with [] => 0 | (o, _) :: t => f o + total f t end.
@@ -295,7 +326,7 @@ Fixpoint total (f : op -> N) (l : list (op * N)) : N :=
    keep the counter within u32, a lost packet has a size *)
 Definition op_valid (b : N) (o : op) : bool :=
   match o with
-  | Sent bytes _ => (bytes =? 0) || (b + bytes <=? u32_max)
+  | Sent bytes _ _ => (bytes =? 0) || (b + bytes <=? u32_max)
   | Ack bytes _ _ => bytes <=? b
   | Lost bytes _ _ => negb (bytes =? 0) && (bytes <=? b)
   | Discard bytes => bytes <=? b
@@ -320,9 +351,15 @@ Lemma congestion_event_proj : forall s now, bif (congestion_event s now) = bif s
   /\ mds (congestion_event s now) = mds s.
 Proof. intros s now. unfold congestion_event. destruct (kind s); repeat split; reflexivity. Qed.
 
-Lemma step_some_iff : forall s o a, op_valid (bif s) o = true <-> step s o a <> None.
+(* on_rtt_update additionally `expect`s that a packet has been sent *)
+Definition has_sent (s : cstate) : bool := match tls (hs s) with Some _ => true | None => false end.
+Definition cop_valid (s : cstate) (o : op) : bool :=
+  op_valid (bif s) o && match o with RttUpd _ _ _ => has_sent s | _ => true end.
+
+Lemma step_some_iff : forall s o a, cop_valid s o = true <-> step s o a <> None.
 Proof.
-  intros s o a. unfold op_valid, step. destruct o as [bytes app|bytes st now|bytes pers now|now|m|bytes|].
+  intros s o a. unfold cop_valid, op_valid, step. destruct o as [bytes app snow|bytes st now|bytes pers now|now|m|bytes|ust unow urtt|];
+    rewrite ?andb_true_r.
   - destruct (N.eqb_spec bytes 0); cbn [orb]; [split; [discriminate|reflexivity]|].
     destruct (N.ltb_spec u32_max (bif s + bytes)); destruct (N.leb_spec (bif s + bytes) u32_max); try lia;
       split; try discriminate; try congruence.
@@ -333,15 +370,16 @@ Proof.
   - split; [discriminate|reflexivity].
   - split; [discriminate|reflexivity].
   - destruct (N.ltb_spec (bif s) bytes); destruct (N.leb_spec bytes (bif s)); try lia; split; try discriminate; congruence.
+  - unfold has_sent. cbn [andb]. destruct (tls (hs s)); split; try discriminate; congruence.
   - split; [discriminate|reflexivity].
 Qed.
 
 Lemma step_bif : forall s o a s', step s o a = Some s' ->
   bif s' + removed_of o = bif s + sent_of o /\ (bif s <= u32_max -> bif s' <= u32_max).
 Proof.
-  intros s o a s' H. unfold step in H. destruct o as [bytes app|bytes st now|bytes pers now|now|m|bytes|]; cbn [removed_of sent_of].
+  intros s o a s' H. unfold step in H. destruct o as [bytes app snow|bytes st now|bytes pers now|now|m|bytes|ust unow urtt|]; cbn [removed_of sent_of].
   - destruct (N.eqb_spec bytes 0); [injection H as <-; lia|].
-    destruct (N.ltb_spec u32_max (bif s + bytes)); [discriminate|]. injection H as <-.
+    destruct (N.ltb_spec u32_max (bif s + bytes)); [discriminate|]. injection H as <-. cbn [bif set_hs].
     match goal with |- context[clear_req ?x] => destruct (clear_req_proj x) as (_ & _ & E & _) end.
     rewrite E. cbn [bif set_uu set_bif]. lia.
   - destruct (N.ltb_spec (bif s) bytes); [discriminate|]. injection H as <-.
@@ -354,7 +392,37 @@ Proof.
   - injection H as <-. cbn [bif]. lia.
   - destruct (N.ltb_spec (bif s) bytes); [discriminate|]. injection H as <-.
     destruct (clear_req_proj (set_bif s (bif s - bytes))) as (_ & _ & E & _). rewrite E. cbn [bif set_bif]. lia.
+  - destruct (tls (hs s)) as [last|]; [|discriminate]. injection H as <-.
+    destruct (on_rtt_update_proj s ust unow urtt last) as (_ & _ & E & _). rewrite E. lia.
   - injection H as <-. lia.
+Qed.
+
+(* whether a packet has been sent: set by the first real send, never cleared *)
+Lemma step_has_sent : forall s o a s', step s o a = Some s' ->
+  has_sent s' = has_sent s || match o with Sent b _ _ => negb (b =? 0) | _ => false end.
+Proof.
+  intros s o a s' H. unfold step in H. unfold has_sent.
+  destruct o as [bytes app snow|bytes st now|bytes pers now|now|m|bytes|ust unow urtt|].
+  - destruct (N.eqb_spec bytes 0); cbn [negb]; [injection H as <-; rewrite orb_false_r; reflexivity|].
+    destruct (u32_max <? bif s + bytes); [discriminate|]. injection H as <-. cbn [hs set_hs tls]. rewrite orb_true_r. reflexivity.
+  - destruct (bif s <? bytes); [discriminate|]. injection H as <-. rewrite orb_false_r.
+    assert (E : hs (on_ack s bytes st a) = hs s).
+    { unfold on_ack. set (s1 := ack1 s bytes). assert (E1 : hs s1 = hs s) by reflexivity.
+      destruct (uu s1); [exact E1|]. set (s2 := ack2 s1 st).
+      assert (E2 : hs s2 = hs s). { unfold s2, ack2. destruct (kind s1) as [|t0 r0|]; try exact E1. destruct (t0 <? st); exact E1. }
+      destruct (max_cwnd s2 <=? cwnd s2); [exact E2|]. destruct (kind s2); try exact E2.
+      destruct (thr s2) as [t|]; [destruct (t <=? _)|]; exact E2. }
+    rewrite E. reflexivity.
+  - destruct ((bytes =? 0) || (bif s <? bytes)); [discriminate|]. rewrite orb_false_r.
+    assert (E : hs (congestion_event (set_bif s (bif s - bytes)) now) = hs s) by (unfold congestion_event; cbn [kind set_bif]; destruct (kind s); reflexivity).
+    destruct pers; injection H as <-; cbn [hs set_cwnd set_kind]; rewrite E; reflexivity.
+  - injection H as <-. rewrite orb_false_r. unfold congestion_event. destruct (kind s); reflexivity.
+  - injection H as <-. rewrite orb_false_r. reflexivity.
+  - destruct (bif s <? bytes); [discriminate|]. injection H as <-. rewrite orb_false_r.
+    unfold clear_req. cbn [kind set_bif]. destruct (kind s) as [|t0 [|]|]; reflexivity.
+  - destruct (tls (hs s)) as [last|] eqn:T; [|discriminate]. injection H as <-. rewrite orb_false_r.
+    destruct (on_rtt_update_proj s ust unow urtt last) as (_ & _ & _ & _ & E & _). rewrite E, T. reflexivity.
+  - injection H as <-. rewrite orb_false_r. reflexivity.
 Qed.
 
 (* bytes_in_flight is exactly what was sent minus what was acknowledged, lost or discarded; it
@@ -370,22 +438,133 @@ Qed.
 
 (* ... and the controller accepts a history exactly when every operation is valid for the bytes
    outstanding at that point (no other panic, no overflow) *)
-Fixpoint hist_valid (b : N) (l : list (op * N)) : bool :=
+Fixpoint hist_valid (b : N) (sent : bool) (l : list (op * N)) : bool :=
   match l with
   | [] => true
-  | (o, _) :: t => op_valid b o && hist_valid (b + sent_of o - removed_of o) t
+  | (o, _) :: t =>
+      op_valid b o && match o with RttUpd _ _ _ => sent | _ => true end
+      && hist_valid (b + sent_of o - removed_of o) (sent || match o with Sent x _ _ => negb (x =? 0) | _ => false end) t
   end.
 
-Theorem no_panic_iff_valid : forall l s, steps s l <> None <-> hist_valid (bif s) l = true.
+Theorem no_panic_iff_valid : forall l s, steps s l <> None <-> hist_valid (bif s) (has_sent s) l = true.
 Proof.
   induction l as [|[o a] t IH]; intros s; cbn [steps hist_valid].
   - split; [reflexivity|discriminate].
-  - pose proof (step_some_iff s o a) as V. destruct (step s o a) as [s1|] eqn:E.
-    + assert (op_valid (bif s) o = true) by (apply V; discriminate). rewrite H. cbn [andb].
-      destruct (step_bif _ _ _ _ E) as [A _].
+  - pose proof (step_some_iff s o a) as V. unfold cop_valid in V. destruct (step s o a) as [s1|] eqn:E.
+    + assert (H : op_valid (bif s) o && match o with RttUpd _ _ _ => has_sent s | _ => true end = true) by (apply V; discriminate).
+      rewrite H. cbn [andb].
+      destruct (step_bif _ _ _ _ E) as [A _]. rewrite <- (step_has_sent _ _ _ _ E).
       replace (bif s + sent_of o - removed_of o) with (bif s1) by lia. apply IH.
-    + destruct (op_valid (bif s) o); [exfalso; apply V; reflexivity|]. cbn [andb]. split; [congruence|discriminate].
+    + destruct (op_valid (bif s) o && match o with RttUpd _ _ _ => has_sent s | _ => true end);
+        [exfalso; apply V; reflexivity|]. cbn [andb]. split; [congruence|discriminate].
 Qed.
 
 Lemma min_window_is_2_mds : forall m, min_window m = FX * (2 * m) /\ floor_u32 m = 2 * m.
 Proof. intros m. split; [rewrite min_window_eq; unfold FX; lia|apply floor_u32_eq]. Qed.
+
+(* ---- saturation: the window stays at or below 2^31 bytes while at most 2^30 bytes have been
+        sent (growth is capped by 2 * bytes_in_flight_hi); on_mtu_update is the only other source
+        of growth and carries a visible premise on the window the model computes for it ---- *)
+Definition SENT_CAP : N := 1073741824.   (* 2^30 *)
+Definition WCAP : N := FX * 2147483648.  (* 2^31 bytes in FX units *)
+
+Definition csat (s : cstate) (S : N) : Prop :=
+  cwnd s <= WCAP /\ bif_hi s <= S /\ bif s <= S /\ mds s < 65536.
+
+Definition cmtu_step_ok (o : op) (s' : cstate) : Prop :=
+  match o with Mtu m => m < 65536 /\ cwnd s' <= WCAP | _ => True end.
+
+Lemma mult_decrease_le_max : forall c m, mult_decrease c m <= N.max c (min_window m).
+Proof.
+  intros c m. unfold mult_decrease. apply N.max_lub; [|lia].
+  unfold beta_cubic_man, beta_cubic_sh.
+  pose proof (round24_upper (c * 11744051)) as U.
+  assert (round24 (c * 11744051) / 2 ^ 24 <= c).
+  { apply N.div_le_upper_bound; [apply N.pow_nonzero; lia|]. change (2 ^ 24) with 16777216 in *. lia. }
+  lia.
+Qed.
+
+Lemma min_window_le_wcap : forall m, m < 65536 -> min_window m <= WCAP.
+Proof. intros m H. rewrite min_window_eq. unfold WCAP, FX. lia. Qed.
+
+Lemma repr24_pow2 : forall k, repr24 (2 ^ k).
+Proof. intros k. exists 1, k. split; [lia|change (2 ^ 24) with 16777216; lia]. Qed.
+
+Lemma max_cwnd_le_wcap : forall s S, bif_hi s <= S -> S <= SENT_CAP -> cwnd s <= WCAP -> mds s < 65536 ->
+  max_cwnd s <= WCAP.
+Proof.
+  intros s S H1 H2 C M. unfold max_cwnd. apply N.max_lub; [|apply min_window_le_wcap; exact M].
+  assert (R : round24 (bif_hi s) <= 2 ^ 30).
+  { apply round24_le; [apply repr24_pow2|]. unfold SENT_CAP in H2. change (2 ^ 30) with 1073741824. lia. }
+  destruct (kind s).
+  - unfold fx_of_int, ss_max_cwnd_mult_man, ss_max_cwnd_mult_sh. change (2 ^ 0) with 1. rewrite N.div_1_r.
+    unfold WCAP. change (2 ^ 30) with 1073741824 in R. unfold FX. lia.
+  - exact C.
+  - unfold max_cwnd_mult_man, max_cwnd_mult_sh. change (2 ^ 1) with 2.
+    assert (R2 : round24 (round24 (bif_hi s) * 3) <= 2 ^ 32).
+    { apply round24_le; [apply repr24_pow2|]. change (2 ^ 30) with 1073741824 in R. change (2 ^ 32) with 4294967296. lia. }
+    apply N.div_le_upper_bound; [lia|]. unfold WCAP, FX. change (2 ^ 32) with 4294967296 in R2. lia.
+Qed.
+
+Lemma step_sat : forall s o a s' S, csat s S -> S + sent_of o <= SENT_CAP -> step s o a = Some s' ->
+  cmtu_step_ok o s' -> csat s' (S + sent_of o).
+Proof.
+  intros s o a s' S (C & H & B & M) T E K. unfold csat.
+  unfold step in E. destruct o as [bytes app snow|bytes st now|bytes pers now|now|m|bytes|ust unow urtt|]; cbn [sent_of] in *.
+  - destruct (N.eqb_spec bytes 0) as [Z|Z]; [injection E as <-; repeat split; try assumption; lia|].
+    destruct (N.ltb_spec u32_max (bif s + bytes)); [discriminate|]. injection E as <-. cbn [cwnd bif_hi bif mds set_hs].
+    match goal with |- context[clear_req ?x] => destruct (clear_req_proj x) as (E1 & E2 & E3 & _ & _ & E6) end.
+    rewrite E1, E2, E3, E6. cbn [cwnd bif_hi bif mds set_uu set_bif]. repeat split; try assumption; lia.
+  - destruct (N.ltb_spec (bif s) bytes); [discriminate|]. injection E as <-. rewrite N.add_0_r in *.
+    unfold on_ack. set (s1 := ack1 s bytes).
+    assert (S1 : csat s1 S) by (unfold csat, s1, ack1; cbn [cwnd bif_hi bif mds set_bif set_hi]; repeat split; try assumption; lia).
+    destruct (uu s1); [exact S1|]. set (s2 := ack2 s1 st).
+    destruct (ack2_proj s1 st) as (A1 & A2 & A3 & _ & A5). fold s2 in A1, A2, A3, A5.
+    assert (S2 : csat s2 S) by (destruct S1 as (X1 & X2 & X3 & X4); unfold csat; rewrite A1, A2, A3, A5; repeat split; assumption).
+    destruct (N.leb_spec (max_cwnd s2) (cwnd s2)); [exact S2|].
+    destruct S2 as (X1 & X2 & X3 & X4).
+    pose proof (max_cwnd_le_wcap s2 S X2 T X1 X4) as MC.
+    destruct (kind s2) eqn:K2.
+    + assert (S3 : csat (set_cwnd s2 (N.min (round24 (cwnd s2 + fx_of_int bytes)) (max_cwnd s2))) S).
+      { unfold csat. cbn [cwnd bif_hi bif mds set_cwnd]. repeat split; try assumption. lia. }
+      destruct (thr s2) as [t|]; [|exact S3]. destruct (t <=? _); exact S3.
+    + repeat split; assumption.
+    + unfold csat. cbn [cwnd bif_hi bif mds set_cwnd]. repeat split; try assumption.
+      unfold ca_clamp. lia.
+  - destruct ((bytes =? 0) || (bif s <? bytes)); [discriminate|]. rewrite N.add_0_r in *.
+    assert (G : csat (congestion_event (set_bif s (bif s - bytes)) now) S).
+    { unfold congestion_event. cbn [kind set_bif]. destruct (kind s); unfold csat; cbn [cwnd bif_hi bif mds set_hi set_bif];
+        repeat split; try assumption; try lia;
+        (pose proof (mult_decrease_le_max (cwnd s) (mds s)); pose proof (min_window_le_wcap (mds s) M); lia). }
+    destruct pers; injection E as <-; [|exact G].
+    destruct G as (G1 & G2 & G3 & G4). unfold csat. cbn [cwnd bif_hi bif mds set_cwnd set_kind]. repeat split; try assumption.
+    apply min_window_le_wcap. exact G4.
+  - injection E as <-. rewrite N.add_0_r.
+    unfold congestion_event. destruct (kind s); unfold csat; cbn [cwnd bif_hi bif mds set_hi];
+      repeat split; try assumption; try lia;
+      (pose proof (mult_decrease_le_max (cwnd s) (mds s)); pose proof (min_window_le_wcap (mds s) M); lia).
+  - injection E as E. cbn in K. destruct K as [K1 K2]. subst s'. rewrite N.add_0_r. unfold csat in *. cbn [cwnd bif_hi bif mds] in *.
+    repeat split; assumption.
+  - destruct (N.ltb_spec (bif s) bytes); [discriminate|]. injection E as <-. rewrite N.add_0_r.
+    destruct (clear_req_proj (set_bif s (bif s - bytes))) as (E1 & E2 & E3 & _ & _ & E6).
+    unfold csat. rewrite E1, E2, E3, E6. cbn [cwnd bif_hi bif mds set_bif]. repeat split; try assumption; lia.
+  - destruct (tls (hs s)) as [last|]; [|discriminate]. injection E as <-. rewrite N.add_0_r.
+    destruct (on_rtt_update_proj s ust unow urtt last) as (E1 & E2 & E3 & _).
+    assert (E4 : bif_hi (on_rtt_update s ust unow urtt last) = bif_hi s).
+    { unfold on_rtt_update.
+      set (s1 := if match thr s with Some t => t <=? cwnd s | None => false end then s else _).
+      assert (P : bif_hi s1 = bif_hi s).
+      { unfold s1. destruct (match thr s with Some t => t <=? cwnd s | None => false end); [reflexivity|].
+        repeat match goal with |- context[match ?c with Some _ => _ | None => _ end] => destruct c end;
+        repeat match goal with |- context[if ?c then _ else _] => destruct c end; reflexivity. }
+      destruct (kind s1); try exact P. destruct (thr s1) as [t|]; [destruct (t <=? cwnd s1)|]; exact P. }
+    unfold csat. rewrite E1, E2, E3, E4. repeat split; assumption.
+  - injection E as <-. rewrite N.add_0_r. repeat split; assumption.
+Qed.
+
+Lemma csat_wnd : forall s S, csat s S -> wnd s < u32_max.
+Proof.
+  intros s S (C & _). unfold wnd, to_u32.
+  assert (cwnd s / FX <= 2147483648) by (apply N.div_le_upper_bound; [unfold FX; lia|unfold WCAP in C; lia]).
+  unfold u32_max. lia.
+Qed.
